@@ -677,22 +677,33 @@ def run(rep, tier):
             n_sites += 1
             rep.ob("R1", q, what, ok, expected=exp, derived=derived, where=repo.where(m, node) if not ok else None, msg=msg)
     rep.floor("raising operations classified in the loader", n_sites, 40)
-    # the >= 50 byte guard that makes magic2int total
-    m, fn = repo.function("xdis.load.load_module")
-    guard = False
-    temps = once_assigned(fn)
-    for node in ast.walk(fn):
-        if isinstance(node, ast.If) and isinstance(node.test, ast.Compare) and len(node.test.ops) == 1 and any(isinstance(s, ast.Raise) and raises_importerror(s) for s in node.body):
-            l, op, r = through_temporaries(node.test.left, temps), node.test.ops[0], through_temporaries(node.test.comparators[0], temps)
-            if isinstance(op, (ast.Gt, ast.GtE)):
-                l, r = r, l
-            elif not isinstance(op, (ast.Lt, ast.LtE)):
-                continue
-            size_side = any(isinstance(c, ast.Call) and ast.unparse(c.func).endswith("getsize") for c in ast.walk(l))
-            bound = r.value if isinstance(r, ast.Constant) and isinstance(r.value, int) else None
-            if size_side and bound is not None and bound + (1 if isinstance(op, (ast.LtE, ast.GtE)) else 0) >= 8:
-                guard = True
-    rep.ob("R1", "xdis.load.load_module", "short-file-guard", guard, expected="files shorter than the header are refused with ImportError before parsing", derived=guard)
+    # the size guard that makes the header reads total: load_module specialised with the file-system probes answered (exists, is a file) and the reported size a
+    # ranged symbol; for every size below the 8 bytes the shortest header takes, every path must end in ImportError (decided by interval reasoning, whatever
+    # the form of the test or of its bound)
+    from ..sve import Raise as _Raise, Spec as _Spec, Sym as _Sym, leaves as _leaves, show as _show
+    from ..tables import tables as _tables
+    F_ = _tables().F
+    lm_ = F_.load("xdis.load").ns.get("load_module")
+    SIZE_ = _Sym("SIZE", "int")
+
+    def fs_hook(spec, name, fv, args, kw, node):
+        base = (name or "").split(".")[-1]
+        if base in ("exists", "isfile"):
+            return True
+        if base == "getsize":
+            return SIZE_
+        if base == "load_module_from_file_object":
+            return _Sym("result", "tuple")
+        return NotImplemented
+    sp_ = _Spec(F_, hooks=[fs_hook])
+    sp_.ranges = {repr(SIZE_): (0, 7)}
+    try:
+        outs_ = [(type(l_).__name__, _show(getattr(l_, "exc", None))) for g_, l_ in _leaves(sp_.run(lm_, [_Sym("filename", "str")], {}))]
+    except Exception as ex:
+        outs_ = [("not evaluable", str(ex)[:80])]
+    guard = bool(outs_) and all(k_ == "Raise" and "ImportError" in e_ for k_, e_ in outs_)
+    rep.ob("R1", "xdis.load.load_module", "short-file-guard", guard, expected="files shorter than the header (0..7 bytes) are refused with ImportError before parsing", derived=outs_[:3],
+           msg="load_module does not refuse a file of fewer than 8 bytes with ImportError: the header reads then fail with struct.error / IndexError")
     # ---------------------------------------------------------------- R2
     seen = cg.reachable(["xdis.load.load_module"])
     rep.floor("functions reachable from load_module", len(seen), 80)
